@@ -1,0 +1,201 @@
+// Copyright 2020-2025 Buf Technologies, Inc.
+//
+// Licensed under the Apache License, Version 2.0 (the "License");
+// you may not use this file except in compliance with the License.
+// You may obtain a copy of the License at
+//
+//      http://www.apache.org/licenses/LICENSE-2.0
+//
+// Unless required by applicable law or agreed to in writing, software
+// distributed under the License is distributed on an "AS IS" BASIS,
+// WITHOUT WARRANTIES OR CONDITIONS OF ANY KIND, either express or implied.
+// See the License for the specific language governing permissions and
+// limitations under the License.
+
+//go:build verif
+
+package bufimage
+
+// Contracts for the gocv verifier (see /verif/DESIGN.md). Comment-only.
+// Spec functions i_*: /verif/specs/C11.spec.
+//
+// C11: the unknown-field bytes of a file descriptor, with EVERY record of field 8042 (the buf extension) removed and
+// every other record kept byte for byte, in order; bytes that are not a sequence of well-formed records are returned
+// unchanged. The result is described position-wise: its length and each of its bytes.
+//@ func stripBufExtensionField(unknownFields) (r)
+//@   property C11
+//@   use i_suffix-self, i_suffix-elem, i_suffix-len, i_suffix-step, i_consume-tag-content, i_consume-value-content, i_wf-unfold, i_stripLen-unfold, i_stripAt-unfold
+//@   reveal i_valN, i_recOk, i_recLen
+//@   ensures malformed-unchanged: !i_wf(unknownFields, 0) ==> r == unknownFields
+//@   ensures stripped-len: i_wf(unknownFields, 0) ==> len(r) == i_stripLen(unknownFields, 0)
+//@   ensures stripped-bytes: i_wf(unknownFields, 0) ==> (forall j int :: 0 <= j && j < len(r) ==> r[j] == i_stripAt(unknownFields, 0, j))
+//@   loop 0 invariant i_suffixOf(bytesRemaining, unknownFields)
+//@   loop 0 invariant i_wf(unknownFields, 0) <==> i_wf(unknownFields, len(unknownFields) - len(bytesRemaining))
+//@   loop 0 invariant ite(isNilSlice(result), len(unknownFields) - len(bytesRemaining), len(result)) + i_stripLen(unknownFields, len(unknownFields) - len(bytesRemaining)) == i_stripLen(unknownFields, 0)
+//@   loop 0 invariant !isNilSlice(result) ==> (forall j int :: 0 <= j && j < len(result) ==> result[j] == i_stripAt(unknownFields, 0, j))
+//@   loop 0 invariant isNilSlice(result) ==> (forall j int :: 0 <= j && j < len(unknownFields) - len(bytesRemaining) ==> unknownFields[j] == i_stripAt(unknownFields, 0, j))
+//@   loop 0 invariant forall j int :: j >= ite(isNilSlice(result), len(unknownFields) - len(bytesRemaining), len(result)) ==> i_stripAt(unknownFields, 0, j) == i_stripAt(unknownFields, len(unknownFields) - len(bytesRemaining), j - ite(isNilSlice(result), len(unknownFields) - len(bytesRemaining), len(result)))
+//@   assert before "n = protowire.ConsumeFieldValue" value-suffix: i_suffixOf(bytesRemaining, unknownFields)
+//@   assert before "bytesRemaining = bytesRemaining[n:]" chunk-copied: !skip && !isNilSlice(result) ==> (forall j int, d int :: d == j - (len(result) - n) && len(result) - n <= j && j < len(result) ==> result[j] == unknownFields[len(unknownFields) - len(bytesRemaining) + d])
+//@   canary ensures r == unknownFields
+//
+// C11: the per-file exclusion decision. The first map holds the --path values matching a file, the second the
+// --exclude-path values matching it. A target path is cancelled when some matching exclude path equals it or lies
+// below it; the file is excluded iff every matching target path is cancelled.
+//@ func shouldExcludeFile(fileMatchingPathMap, fileMatchingExcludePathMap) (r)
+//@   property C11
+//@   modifies fileMatchingPathMap
+//@   reveal i_coversSome
+//@   requires (forall k string :: k in fileMatchingPathMap ==> validRel(k)) && (forall k string :: k in fileMatchingExcludePathMap ==> validRel(k))
+//@   ensures decision: r <==> (forall p string :: p in old(fileMatchingPathMap) ==> i_coversSome(p, dom(fileMatchingExcludePathMap)))
+//@   ensures remaining: forall p string :: p in fileMatchingPathMap <==> (p in old(fileMatchingPathMap) && !i_coversSome(p, dom(fileMatchingExcludePathMap)))
+//@   loop 0 invariant forall k string :: k in fileMatchingPathMap ==> k in old(fileMatchingPathMap)
+//@   loop 0 invariant forall k string :: k in old(fileMatchingPathMap) && !(k in fileMatchingPathMap) ==> i_coversSome(k, dom(fileMatchingExcludePathMap))
+//@   loop 0 invariant forall k string :: k in $visited && i_coversSome(k, dom(fileMatchingExcludePathMap)) ==> !(k in fileMatchingPathMap)
+//@   loop 1 invariant forall k string :: k in fileMatchingPathMap ==> k in old(fileMatchingPathMap)
+//@   loop 1 invariant forall k string :: k in old(fileMatchingPathMap) && !(k in fileMatchingPathMap) ==> i_coversSome(k, dom(fileMatchingExcludePathMap))
+//@   loop 1 invariant forall k string :: k in $visited0 && i_coversSome(k, dom(fileMatchingExcludePathMap)) ==> !(k in fileMatchingPathMap)
+//@   loop 1 invariant forall e string :: e in $visited && ancOrSelf(fileMatchingPath, e) ==> !(fileMatchingPath in fileMatchingPathMap)
+//@   loop 1 invariant fileMatchingPath in old(fileMatchingPathMap)
+//@   canary ensures r
+//@   canary ensures !r
+//
+// C11: with allowNotExist == false every --exclude-path must match (equal or contain) at least one file of the image.
+//@ func checkExcludePathsExistInImage(image, excludeFileOrDirPaths) (err)
+//@   property C11
+//@   requires forall k int :: 0 <= k && k < len(excludeFileOrDirPaths) ==> validRel(excludeFileOrDirPaths[k])
+//@   requires forall f int :: 0 <= f && f < len(image.Files()) ==> validRel(image.Files()[f].Path())
+//@   ensures all-matched: err == nil <==> (forall k int :: 0 <= k && k < len(excludeFileOrDirPaths) ==> (exists f int :: 0 <= f && f < len(image.Files()) && ancOrSelf(excludeFileOrDirPaths[k], image.Files()[f].Path())))
+//@   loop 0 invariant forall k int :: 0 <= k && k < $i ==> (exists f int :: 0 <= f && f < len(image.Files()) && ancOrSelf(excludeFileOrDirPaths[k], image.Files()[f].Path()))
+//@   loop 1 invariant !foundPath && (forall f int :: 0 <= f && f < $i ==> !ancOrSelf(excludeFileOrDirPath, image.Files()[f].Path()))
+//@   loop 1 invariant forall k int :: 0 <= k && k < $i0 ==> (exists f int :: 0 <= f && f < len(image.Files()) && ancOrSelf(excludeFileOrDirPaths[k], image.Files()[f].Path()))
+//@   canary ensures err == nil
+//@   canary ensures err != nil
+//
+// Trusted (dynamic dispatch between the Image / ImageFile interfaces and their implementations is not linked by the
+// engine; the *image side is verified in zz_verif_contracts_build.go): GetFile returns the image's file with that
+// path, or nil; ImageFileWithIsImport is a copy that differs at most in the import flag.
+//@ trusted pure func (Image) GetFile(path) (r)
+//@   ensures r != nil ==> r.Path() == path
+//@   ensures r != nil ==> (exists j int :: 0 <= j && j < len(this.Files()) && this.Files()[j] == r)
+//@   ensures (exists j int :: 0 <= j && j < len(this.Files()) && this.Files()[j].Path() == path) ==> r != nil
+//@ trusted func ImageFileWithIsImport(imageFile, isImport) (r)
+//@   ensures r != nil && r.Path() == imageFile.Path() && r.IsImport() == isImport && r.FileDescriptorProto() == imageFile.FileDescriptorProto()
+//
+// C11 (the C01 DFS once more): post-order walk over the imports the image can resolve. seen = seenPaths, done = paths
+// of the accumulator, pending = seen \ done = the DFS stack; every pending file ranks above the file being visited
+// (acyclicity), hence an import that was already seen is already in the accumulator when its importer is appended.
+// Result: imports before importers, each path once, isImport == !(path in nonImportPaths).
+//@ func addFileWithImports(accumulator, image, nonImportPaths, seenPaths, imageFile) (r)
+//@   property C11
+//@   modifies seenPaths
+//@   reveal i_acyclic, i_doneIn, i_importsBefore
+//@   requires acyclic: i_acyclic(image)
+//@   requires member: imageFile != nil && image.GetFile(imageFile.Path()) == imageFile && seenPaths != nil
+//@   requires done-seen: forall k int :: 0 <= k && k < len(accumulator) ==> accumulator[k].Path() in seenPaths
+//@   requires unique: forall a int, b int :: 0 <= a && a < b && b < len(accumulator) ==> accumulator[a].Path() != accumulator[b].Path()
+//@   requires ordered: forall k int :: 0 <= k && k < len(accumulator) ==> i_importsBefore(image, accumulator, k)
+//@   requires pending-above: forall q string :: q in seenPaths && !i_doneIn(accumulator, len(accumulator), q) ==> i_rank(q) > i_rank(imageFile.Path())
+//@   requires flags: forall k int :: 0 <= k && k < len(accumulator) ==> accumulator[k].IsImport() == !(accumulator[k].Path() in nonImportPaths)
+//@   requires from-image: forall k int :: 0 <= k && k < len(accumulator) ==> image.GetFile(accumulator[k].Path()) != nil && accumulator[k].FileDescriptorProto() == image.GetFile(accumulator[k].Path()).FileDescriptorProto()
+//@   ensures from-image: forall k int :: 0 <= k && k < len(r) ==> image.GetFile(r[k].Path()) != nil && r[k].FileDescriptorProto() == image.GetFile(r[k].Path()).FileDescriptorProto()
+//@   ensures prefix-kept: len(r) >= len(accumulator) && (forall k int :: 0 <= k && k < len(accumulator) ==> r[k] == accumulator[k])
+//@   ensures seen-grows: seenPaths != nil && (forall q string :: q in old(seenPaths) ==> q in seenPaths)
+//@   ensures done-seen: forall k int :: 0 <= k && k < len(r) ==> r[k].Path() in seenPaths
+//@   ensures each-path-once: forall a int, b int :: 0 <= a && a < b && b < len(r) ==> r[a].Path() != r[b].Path()
+//@   ensures imports-first: forall k int :: 0 <= k && k < len(r) ==> i_importsBefore(image, r, k)
+//@   ensures visited-done: i_doneIn(r, len(r), imageFile.Path())
+//@   ensures newly-seen-done: forall q string :: q in seenPaths ==> q in old(seenPaths) || (exists k int :: len(accumulator) <= k && k < len(r) && r[k].Path() == q)
+//@   ensures new-were-unseen: forall k int :: len(accumulator) <= k && k < len(r) ==> !(r[k].Path() in old(seenPaths))
+//@   ensures flags: forall k int :: 0 <= k && k < len(r) ==> r[k].IsImport() == !(r[k].Path() in nonImportPaths)
+//@   loop 0 invariant len(accumulator) >= len(old(accumulator)) && (forall k int :: 0 <= k && k < len(old(accumulator)) ==> accumulator[k] == old(accumulator)[k])
+//@   loop 0 invariant seenPaths != nil && path in seenPaths && (forall q string :: q in old(seenPaths) ==> q in seenPaths)
+//@   loop 0 invariant forall k int :: 0 <= k && k < len(accumulator) ==> accumulator[k].Path() in seenPaths
+//@   loop 0 invariant forall a int, b int :: 0 <= a && a < b && b < len(accumulator) ==> accumulator[a].Path() != accumulator[b].Path()
+//@   loop 0 invariant forall k int :: 0 <= k && k < len(accumulator) ==> i_importsBefore(image, accumulator, k)
+//@   loop 0 invariant forall j int :: 0 <= j && j < $i && image.GetFile(imageFile.FileDescriptorProto().GetDependency()[j]) != nil ==> i_doneIn(accumulator, len(accumulator), imageFile.FileDescriptorProto().GetDependency()[j])
+//@   loop 0 invariant forall q string :: q in seenPaths ==> q == path || q in old(seenPaths) || (exists k int :: len(old(accumulator)) <= k && k < len(accumulator) && accumulator[k].Path() == q)
+//@   loop 0 invariant forall k int :: len(old(accumulator)) <= k && k < len(accumulator) ==> !(accumulator[k].Path() in old(seenPaths)) && accumulator[k].Path() != path
+//@   loop 0 invariant forall k int :: 0 <= k && k < len(accumulator) ==> accumulator[k].IsImport() == !(accumulator[k].Path() in nonImportPaths)
+//@   loop 0 invariant forall k int :: 0 <= k && k < len(accumulator) ==> image.GetFile(accumulator[k].Path()) != nil && accumulator[k].FileDescriptorProto() == image.GetFile(accumulator[k].Path()).FileDescriptorProto()
+//@   canary ensures len(r) == len(accumulator)
+//
+// NewImage keeps the files in the order given (thin wrapper of newImage, whose contract is in zz_verif_contracts_build.go).
+//@ func NewImage(imageFiles) (r, err)
+//@   property C11
+//@   modifies heap
+//@   ensures order-kept: err == nil ==> r != nil && cast(*image, r).files == imageFiles && len(imageFiles) > 0
+//@   ensures empty-rejected: len(imageFiles) == 0 ==> err != nil
+//
+// C11: the image restricted to the selected files: the selected files and everything they (transitively) import, imports
+// before importers, each path once, a file is a non-import iff its path was selected; nothing that is not in the image.
+//@ func getImageWithImports(image, nonImportPaths, nonImportImageFiles) (r, err)
+//@   property C11
+//@   modifies heap
+//@   reveal i_doneIn
+//@   requires acyclic: i_acyclic(image)
+//@   requires members: forall i int :: 0 <= i && i < len(nonImportImageFiles) ==> nonImportImageFiles[i] != nil && image.GetFile(nonImportImageFiles[i].Path()) == nonImportImageFiles[i]
+//@   ensures imports-first: err == nil ==> (forall k int :: 0 <= k && k < len(cast(*image, r).files) ==> i_importsBefore(image, cast(*image, r).files, k))
+//@   ensures each-path-once: err == nil ==> (forall a int, b int :: 0 <= a && a < b && b < len(cast(*image, r).files) ==> cast(*image, r).files[a].Path() != cast(*image, r).files[b].Path())
+//@   ensures flags: err == nil ==> (forall k int :: 0 <= k && k < len(cast(*image, r).files) ==> cast(*image, r).files[k].IsImport() == !(cast(*image, r).files[k].Path() in nonImportPaths))
+//@   ensures selected-included: err == nil ==> (forall i int :: 0 <= i && i < len(nonImportImageFiles) ==> i_doneIn(cast(*image, r).files, len(cast(*image, r).files), nonImportImageFiles[i].Path()))
+//@   ensures from-image: err == nil ==> (forall k int :: 0 <= k && k < len(cast(*image, r).files) ==> image.GetFile(cast(*image, r).files[k].Path()) != nil && cast(*image, r).files[k].FileDescriptorProto() == image.GetFile(cast(*image, r).files[k].Path()).FileDescriptorProto())
+//@   ensures nothing-selected: len(nonImportImageFiles) == 0 ==> err != nil
+//@   loop 0 invariant seenPaths != nil && (forall q string :: q in seenPaths ==> i_doneIn(imageFiles, len(imageFiles), q))
+//@   loop 0 invariant forall k int :: 0 <= k && k < len(imageFiles) ==> imageFiles[k].Path() in seenPaths
+//@   loop 0 invariant forall a int, b int :: 0 <= a && a < b && b < len(imageFiles) ==> imageFiles[a].Path() != imageFiles[b].Path()
+//@   loop 0 invariant forall k int :: 0 <= k && k < len(imageFiles) ==> i_importsBefore(image, imageFiles, k)
+//@   loop 0 invariant forall k int :: 0 <= k && k < len(imageFiles) ==> imageFiles[k].IsImport() == !(imageFiles[k].Path() in nonImportPaths)
+//@   loop 0 invariant forall k int :: 0 <= k && k < len(imageFiles) ==> image.GetFile(imageFiles[k].Path()) != nil && imageFiles[k].FileDescriptorProto() == image.GetFile(imageFiles[k].Path()).FileDescriptorProto()
+//@   loop 0 invariant forall i int :: 0 <= i && i < $i ==> i_doneIn(imageFiles, len(imageFiles), nonImportImageFiles[i].Path())
+//@   loop 0 invariant $i == 0 ==> len(imageFiles) == 0
+//@   canary ensures err != nil
+//
+// C11: the image-level targeting (what build/lint/breaking apply to an image input with --path / --exclude-path).
+// The per-file decisions are ghost assertions at the points where a file is selected or skipped:
+//  * only --exclude-path given: a file is selected iff it is a non-import of the image and no exclude path equals or
+//    contains it;
+//  * a --path naming a file of the image selects that file;
+//  * every other file is selected iff i_imageDecision holds for the remaining (directory-like) --path values.
+//@ func imageWithOnlyPaths(image, fileOrDirPaths, excludeFileOrDirPaths, allowNotExist) (r, err)
+//@   property C11
+//@   modifies heap
+//@   reveal i_coversSome, i_underSome, i_in, i_isFile, i_excluded, i_named, i_dirLike, i_doneIn
+//@   use i_selected-def, i_selA-def, i_selB-def, i_imageDecision-def, i_dirSelected-def
+//@   requires acyclic: i_acyclic(image)
+//@   requires image-paths-valid: forall f int :: 0 <= f && f < len(image.Files()) ==> image.Files()[f] != nil && validRel(image.Files()[f].Path())
+//@   requires image-indexed: forall f int :: 0 <= f && f < len(image.Files()) ==> image.GetFile(image.Files()[f].Path()) == image.Files()[f]
+//@   ensures non-imports-are-the-selected: err == nil ==> (forall k int :: 0 <= k && k < len(cast(*image, r).files) ==> cast(*image, r).files[k].IsImport() == !i_selected(image, fileOrDirPaths, excludeFileOrDirPaths, cast(*image, r).files[k].Path()))
+//@   ensures selected-are-included: err == nil ==> (forall q string :: i_selected(image, fileOrDirPaths, excludeFileOrDirPaths, q) ==> i_doneIn(cast(*image, r).files, len(cast(*image, r).files), q))
+//@   ensures imports-first: err == nil ==> (forall k int :: 0 <= k && k < len(cast(*image, r).files) ==> i_importsBefore(image, cast(*image, r).files, k))
+//@   ensures each-path-once: err == nil ==> (forall a int, b int :: 0 <= a && a < b && b < len(cast(*image, r).files) ==> cast(*image, r).files[a].Path() != cast(*image, r).files[b].Path())
+//@   ensures from-image: err == nil ==> (forall k int :: 0 <= k && k < len(cast(*image, r).files) ==> image.GetFile(cast(*image, r).files[k].Path()) != nil)
+//@   ensures same-path-and-exclude-rejected: (exists q string :: i_in(fileOrDirPaths, q) && i_in(excludeFileOrDirPaths, q)) ==> err != nil
+//@   ensures nothing-given-rejected: len(fileOrDirPaths) == 0 && len(excludeFileOrDirPaths) == 0 ==> err != nil
+//@   loop 0 invariant forall i int :: 0 <= i && i < len(nonImportImageFiles) ==> nonImportImageFiles[i] != nil && image.GetFile(nonImportImageFiles[i].Path()) == nonImportImageFiles[i] && nonImportImageFiles[i].Path() in nonImportPaths
+//@   loop 0 invariant nonImportPaths != nil && (forall q string :: q in nonImportPaths ==> (exists i int :: 0 <= i && i < len(nonImportImageFiles) && nonImportImageFiles[i].Path() == q))
+//@   loop 0 invariant forall q string :: q in nonImportPaths <==> ((exists f int :: 0 <= f && f < $i && image.Files()[f].Path() == q && !image.Files()[f].IsImport()) && !i_excluded(excludeFileOrDirPaths, q))
+//@   loop 1 invariant forall j int :: 0 <= j && j < $i ==> !(fileOrDirPaths[j] in excludeFileOrDirPathMap)
+//@   loop 2 invariant forall i int :: 0 <= i && i < len(nonImportImageFiles) ==> nonImportImageFiles[i] != nil && image.GetFile(nonImportImageFiles[i].Path()) == nonImportImageFiles[i] && nonImportImageFiles[i].Path() in nonImportPaths
+//@   loop 2 invariant nonImportPaths != nil && (forall q string :: q in nonImportPaths ==> (exists i int :: 0 <= i && i < len(nonImportImageFiles) && nonImportImageFiles[i].Path() == q))
+//@   loop 2 invariant forall j int :: 0 <= j && j < len(potentialDirPaths) ==> validRel(potentialDirPaths[j])
+//@   loop 2 invariant len(potentialDirPaths) <= $i && len(nonImportImageFiles) <= $i
+//@   loop 2 invariant forall q string :: q in nonImportPaths <==> (exists j int :: 0 <= j && j < $i && fileOrDirPaths[j] == q && normalpath.Ext(q) == ".proto" && image.GetFile(q) != nil)
+//@   loop 2 invariant forall p string :: i_in(potentialDirPaths, p) <==> (exists j int :: 0 <= j && j < $i && fileOrDirPaths[j] == p && !(normalpath.Ext(p) == ".proto" && image.GetFile(p) != nil))
+//@   loop 3 invariant forall i int :: 0 <= i && i < len(nonImportImageFiles) ==> nonImportImageFiles[i] != nil && image.GetFile(nonImportImageFiles[i].Path()) == nonImportImageFiles[i] && nonImportImageFiles[i].Path() in nonImportPaths
+//@   loop 3 invariant nonImportPaths != nil && (forall q string :: q in nonImportPaths ==> (exists i int :: 0 <= i && i < len(nonImportImageFiles) && nonImportImageFiles[i].Path() == q))
+//@   loop 3 invariant forall q string :: q in nonImportPaths <==> (i_named(image, fileOrDirPaths, q) || ((exists f int :: 0 <= f && f < $i && image.Files()[f].Path() == q) && i_imageDecision(dom(potentialDirPathMap), dom(excludeFileOrDirPathMap), q)))
+//@   assert before "nonImportPaths[imageFile.Path()] = struct{}{}" exclude-only-selected: !imageFile.IsImport() && !i_underSome(dom(excludeFileOrDirPathMap), imageFile.Path())
+//@   assert before "if !allowNotExist {\n\t\t\tif err := checkExcludePathsExistInImage" selection-by-excludes: len(fileOrDirPaths) == 0 && len(excludeFileOrDirPaths) > 0 ==> (forall q string :: q in nonImportPaths <==> i_selA(image, excludeFileOrDirPaths, q))
+//@   assert before "if fileOrDirPath == " path-and-exclude-disjoint: forall j int :: 0 <= j && j < len(fileOrDirPaths) ==> !(fileOrDirPaths[j] in excludeFileOrDirPathMap)
+//@   assert before "nonImportPaths[fileOrDirPath] = struct{}{}" named-file-selected: imageFile.Path() == fileOrDirPath && !(fileOrDirPath in excludeFileOrDirPathMap)
+//@   assert before "continue" file-skipped: !i_imageDecision(dom(potentialDirPathMap), dom(excludeFileOrDirPathMap), imageFilePath)
+//@   assert before "if len(fileMatchingPathMap) > 0" file-selected: i_imageDecision(dom(potentialDirPathMap), dom(excludeFileOrDirPathMap), imageFilePath) && len(fileMatchingPathMap) > 0
+//@   assert before "if len(potentialDirPaths) == 0" no-dir-like: len(potentialDirPaths) == 0 ==> (forall p string :: !i_dirLike(image, fileOrDirPaths, p))
+//@   assert before "if len(potentialDirPaths) == 0" selection-by-named: len(potentialDirPaths) == 0 ==> (forall q string :: q in nonImportPaths <==> i_selB(image, fileOrDirPaths, excludeFileOrDirPaths, q))
+//@   assert before "if len(potentialDirPaths) == 0" none-without-paths: len(fileOrDirPaths) == 0 ==> (forall q string :: !(q in nonImportPaths))
+//@   assert before "if !allowNotExist {\n\t\tfor potentialDirPath" selection-in-input-terms: forall q string :: i_imageDecision(dom(potentialDirPathMap), dom(excludeFileOrDirPathMap), q) <==> i_dirSelected(image, fileOrDirPaths, excludeFileOrDirPaths, q)
+//@   assert before "if !allowNotExist {\n\t\tfor potentialDirPath" some-path-given: len(fileOrDirPaths) > 0
+//@   assert before "if !allowNotExist {\n\t\tfor potentialDirPath" selection-by-paths: forall q string :: q in nonImportPaths <==> i_selB(image, fileOrDirPaths, excludeFileOrDirPaths, q)
+//@   assert before "return getImageWithImports(image, nonImportPaths, nonImportImageFiles)" selection-characterised: forall q string :: q in nonImportPaths <==> i_selected(image, fileOrDirPaths, excludeFileOrDirPaths, q)
+//@   canary ensures err != nil
